@@ -32,8 +32,8 @@ Ltac inv H :=
 
 (* a module written under defaults D: every list field is D's followed by its own, env fields are
    D's merged with its own, and the scalar fields are its own *)
-Theorem convert_module_fields y ctx is_binary filename (D : module) m :
-  convert_module y ctx is_binary filename (Some D) = Ok m ->
+Theorem convert_module_fields bd y ctx is_binary filename (D : module) m :
+  convert_module bd y ctx is_binary filename (Some D) = Ok m ->
   exists sel uses depends,
     deps_of_specs (odflt [] (ym_selects y)) = Ok sel /\
     rmapM dependency_from_string (odflt [] (ym_uses y)) = Ok uses /\
@@ -45,17 +45,18 @@ Theorem convert_module_fields y ctx is_binary filename (D : module) m :
     m_blocklist m = match m_blocklist D with Some d => Some (d ++ odflt [] (ym_blocklist y)) | None => ym_blocklist y end /\
     m_allowlist m = match m_allowlist D with Some d => Some (d ++ odflt [] (ym_allowlist y)) | None => ym_allowlist y end /\
     m_build m = ym_build y /\
-    m_is_build_dep m = ym_is_build_dep y /\ m_is_global_build_dep m = ym_is_global_build_dep y /\
+    m_is_build_dep m = (match ym_download y with Some _ => true | None => ym_is_build_dep y end) /\
+    m_is_global_build_dep m = ym_is_global_build_dep y /\ m_download m = ym_download y /\
     m_name m = match ym_name y with Some n => n | None => parent filename end /\
     m_context_name m = match ctx with Some c => c | None => m_context_name D end /\
     m_notify_all m = (m_notify_all D || ym_notify_all y) /\
-    m_build_dep_files m = m_build_dep_files D.
+    (ym_download y = None -> m_build_dep_files m = m_build_dep_files D).
 Proof.
   unfold convert_module. intros H.
   inv H. inv H. inv H. inv H.
   repeat (inv H).
   inversion H; subst; clear H. cbn.
-  exists a0, a1, a2. repeat split; reflexivity.
+  exists a0, a1, a2. repeat split; try reflexivity. intros ->. reflexivity.
 Qed.
 
 (* a module with a list of contexts is converted once per context, in order *)
